@@ -253,6 +253,12 @@ def check(res, drv_resp, cert_resp, case, rg, calls, used, size, fpots, pots, r_
     res.count('converged to 1e-6*total' if converged else 'cap reached before 1e-6*total')
     res.extra['max_sweeps'] = max(res.extra.get('max_sweeps', 0), used)
     ok = True
+    # every clique the caller listed (nested ones included: each is a region with its own potential and entropy term) gets a table
+    missing = [list(c) for c in cl if tuple(rggen.fresh_clique(c)) not in {tuple(k) for k in tab}]
+    if missing:
+        res.violation('failing-input', f'hazan_peng_shashua returns no table for the listed clique(s) {missing} (cliques {cl}): their potentials and entropy terms are '
+                      f'not part of the programme that was solved', rp, key='hps:missing-clique')
+        return
     bad = rggen.validity(tab, total, 1e-9)
     if bad:
         mm0 = rggen.max_abs_message(rg)
